@@ -104,6 +104,11 @@ static void on_fault(int sig, siginfo_t *si, void *u) {
     _exit(3);
 }
 
+#ifdef DRV_EMU_BE
+/* emulated big-endian host (vlib/be_emu.py): structures shared with libc are filled in by an untouched native helper */
+extern void drv_native_install(void (*h)(int, siginfo_t *, void *));
+#endif
+
 struct blk { unsigned char *base; size_t total; unsigned char *p; size_t size; };
 
 #ifdef DRV_ASAN
@@ -186,7 +191,9 @@ struct msg_entry {
 DRIVER_MAIN = r'''
 int main(void) {
     PG = sysconf(_SC_PAGESIZE);
-#ifndef DRV_ASAN
+#if defined(DRV_EMU_BE)
+    drv_native_install(on_fault);
+#elif !defined(DRV_ASAN)
     struct sigaction sa; memset(&sa, 0, sizeof sa); sa.sa_sigaction = on_fault; sa.sa_flags = SA_SIGINFO;
     sigaction(SIGSEGV, &sa, NULL); sigaction(SIGBUS, &sa, NULL);
 #endif
@@ -364,6 +371,13 @@ CONFIGS: Dict[str, Dict[str, Any]] = {
     "gcc-O2-BE": dict(cc="gcc", flags=["-O2", "-DBP_BIG_ENDIAN", "-DDRV_BE_STORAGE"], single=True),
     "clang-O2-BE": dict(cc="clang", flags=["-O2", "-DBP_BIG_ENDIAN", "-DDRV_BE_STORAGE"], single=False),
     "gcc-asan-BE": dict(cc="gcc", flags=["-O1", "-DBP_BIG_ENDIAN", "-DDRV_BE_STORAGE"] + SAN, single=False, asan=True),
+    # emulated big-endian HOST (vlib/be_emu.py): unoptimised IR with every multi-byte integer access byte-swapped, sources
+    # preprocessed with __BYTE_ORDER__ == __ORDER_BIG_ENDIAN__ (the code's own detection decides), native back end at -O0/-O1/-O2
+    "emu-BE-O0": dict(emu=True, backend="-O0"),
+    "emu-BE-O1": dict(emu=True, backend="-O1"),
+    "emu-BE-O2": dict(emu=True, backend="-O2"),
+    # positive control: the same emulated big-endian memory, but the code is told the host is little-endian: must FAIL
+    "emu-BE-control-LE-code": dict(emu=True, backend="-O1", force_le=True),
     # access-width tracing builds (valgrind lackey): -O0 so the compiler neither merges nor splits accesses
     "trace-LE": dict(cc="gcc", flags=["-O0", "-g", "-fno-builtin", "-no-pie"], single=False),
     "trace-BE": dict(cc="gcc", flags=["-O0", "-g", "-fno-builtin", "-no-pie", "-DBP_BIG_ENDIAN", "-DDRV_BE_STORAGE"], single=False),
@@ -395,6 +409,8 @@ def build(directory: str, root: File, config: str, optimize: bool = False, exe_n
     if not optimize:
         srcs.insert(0, os.path.join(env.CLIB_DIR, "bitproto.c"))
     exe = os.path.join(directory, exe_name or f"drv-{config}")
+    if cfg.get("emu"):
+        return _build_emulated(directory, srcs, exe, cfg, extra_flags)
     flags = list(cfg["flags"]) + WARN + (extra_flags or []) + ["-I", directory, "-I", env.CLIB_DIR]
     if cfg.get("single"):
         single = os.path.join(directory, f"single-{config}.c")
@@ -407,6 +423,36 @@ def build(directory: str, root: File, config: str, optimize: bool = False, exe_n
     p = subprocess.run(cmd, capture_output=True, text=True, timeout=600)
     if p.returncode != 0:
         raise BuildError(f"{config}: compiler exit {p.returncode}", (p.stdout + p.stderr)[-4000:])
+    return exe
+
+
+NATIVE_HELPER = r"""
+#define _GNU_SOURCE
+#include <signal.h>
+#include <string.h>
+void drv_native_install(void (*h)(int, siginfo_t *, void *)) {
+    struct sigaction sa; memset(&sa, 0, sizeof sa); sa.sa_sigaction = h; sa.sa_flags = SA_SIGINFO;
+    sigaction(SIGSEGV, &sa, NULL); sigaction(SIGBUS, &sa, NULL);
+}
+"""
+
+EMU_STATS: Dict[str, int] = {}
+
+
+def _build_emulated(directory: str, srcs: List[str], exe: str, cfg: Dict[str, Any], extra_flags: Optional[List[str]]) -> str:
+    from . import be_emu
+    helper = os.path.join(directory, "drv_native_helper.c")
+    with open(helper, "w") as fh:
+        fh.write(NATIVE_HELPER)
+    try:
+        stats = be_emu.build_emulated(srcs, exe, [directory, env.CLIB_DIR], list(extra_flags or []), cfg.get("backend", "-O1"),
+                                      workdir=directory, native_sources=[helper], force_le=bool(cfg.get("force_le")))
+    except be_emu.Unsupported as e:
+        raise BuildError("emulation-unsupported: " + str(e), str(e))
+    except RuntimeError as e:
+        raise BuildError("emu build failed", str(e))
+    for k, v in stats.items():
+        EMU_STATS[k] = EMU_STATS.get(k, 0) + v
     return exe
 
 
@@ -498,7 +544,9 @@ RT_DRIVER = DRIVER_PRELUDE + r"""
 #include "bitproto.h"
 int main(void) {
     PG = sysconf(_SC_PAGESIZE);
-#ifndef DRV_ASAN
+#if defined(DRV_EMU_BE)
+    drv_native_install(on_fault);
+#elif !defined(DRV_ASAN)
     struct sigaction sa; memset(&sa, 0, sizeof sa); sa.sa_sigaction = on_fault; sa.sa_flags = SA_SIGINFO;
     sigaction(SIGSEGV, &sa, NULL); sigaction(SIGBUS, &sa, NULL);
 #endif
